@@ -156,3 +156,17 @@ register('C14', 'translation_validation',
          "reals for floats; operation sequences are bounded enumeration (singles / all ordered pairs); the solver decides "
          "function identity per sequence; 5 template shapes",
          "SMT translation validation of the template after non-mutating operations (symx + z3)", "7/C14")
+register('C13', 'translation_validation',
+         "Bounded histories of public API calls run in ONE process over decoy models that share an operator name (other "
+         "equations), an operator structure and all names (other values/edges), template objects or the output file name "
+         "with the target: construct, get_run_func (clear=False), get_jacobian_func, run with clear/in_place on and off, "
+         "clear, clear_frontend_caches, to_yaml, editing a deep copy. Afterwards the target is compiled and z3 proves its "
+         "emitted vector field equal to its own reference semantics (which knows nothing of the history), fingerprints "
+         "check returned values, state-map names must be declared names; every function returned earlier is validated "
+         "against its own model and must still return what it returned. OperatorTemplate.apply is enumerated "
+         "exhaustively over a pool of (name, equations, variables) pairs in both orders.",
+         "reals for floats; the history quantifier is bounded: all single steps x 4 decoys, plus 16 (quick) / 400 (thorough) "
+         "random histories of length 2-3 / 2-4; targets A (and C in thorough); CrossHair cannot decide "
+         "OperatorTemplate.apply (sys.intern realises symbolic strings; patched hash() fails on OperatorIR.__hash__), so "
+         "that unit is a finite enumeration",
+         "SMT translation validation after API histories in one process (symx + z3)", "7/C13")
